@@ -14,8 +14,8 @@ import shutil
 
 CRASH_EXIT = 77
 
-KINDS_OPEN = ("crash_before", "crash_after_create", "crash_mid_write", "crash_cut_tail1", "crash_cut_tail8", "err_open", "err_write")
-KINDS_OTHER = ("crash_before", "err_op")
+KINDS_OPEN = ("crash_before", "crash_after_create", "crash_mid_write", "crash_cut_tail1", "crash_cut_tail8", "err_open", "err_write", "err_perm")
+KINDS_OTHER = ("crash_before", "err_op", "err_perm")  # err_perm: the operation is refused with EACCES (a PermissionError) once
 KINDS_READ = ("err_open",)  # a crash before a read leaves the same disk state as a crash before the next mutation
 
 
@@ -92,6 +92,8 @@ class FaultFS:
             self.fired.add(idx)
         if f == "crash_before":
             os._exit(CRASH_EXIT)
+        if f == "err_perm":
+            raise PermissionError(errno.EACCES, "Permission denied (injected) on %s" % kind)
         if f in ("err_open", "err_op"):
             raise OSError(errno.ENOSPC if kind == "open-w" else errno.EIO, "injected I/O error on %s" % kind)
         return idx, f
